@@ -34,10 +34,16 @@ VERUS = {
     'int_memsize_div_ops': {'file': 'int_memsize_div_ops.rs', 'w32': True},
     # gcd/lehmer.rs gcd_in_place under its functional + resource contract (annotations of int_leh_gcd + accounting): a chunk
     # of gneed(|rhs| / 2) Words is enough for every Euclidean step; the division is seen through the CONJUNCTION of its
-    # functional and resource contracts (//@@ SIG a and=b).  The CALLER's sizing is the genuine defect proposed_fixes/MEM1:
-    # units/int_memsize_gcd_ops.rs (memory_requirement_up_to / _exact, gcd::gcd_in_place, gcd_ops::gcd_large) verifies on a
-    # tree with that repair and fails on the unchanged one, so it is NOT registered here yet
+    # functional and resource contracts (//@@ SIG a and=b)
     'int_memsize_gcd': {'file': 'int_memsize_gcd.rs', 'w32': True},
+    # lehmer::memory_requirement_up_to (as repaired by 1d55bba: mul::memory_requirement_up_to(lhs_len, rhs_len / 2)),
+    # gcd::memory_requirement_exact, gcd::gcd_in_place, gcd_ops::gcd_large: the Layout provides gneed(rhs_len / 2) Words =
+    # the kernel's precondition (this unit FAILED on the tree before the repair: the defect it was written against)
+    'int_memsize_gcd_ops': {'file': 'int_memsize_gcd_ops.rs', 'w32': True},
+    # gcd/lehmer.rs gcd_ext_in_place under its functional + resource contract (annotations of int_leh_gcd_ext + accounting):
+    # ext_need(|lhs|) = 2 (|lhs| + 1) + gneed(ceil(|lhs| / 2)) Words suffice (cofactor buffers, every Euclidean division, every
+    # cofactor product: at most |lhs| + 1 result words by the value invariant).  One long query (~20 s, 2.6e8 rlimit units)
+    'int_memsize_gcd_ext': {'file': 'int_memsize_gcd_ext.rs', 'w32': True, 'rlimit': 300},
 }
 
 _K = 'kani/harness/int_memsize_model.rs'
@@ -72,8 +78,8 @@ KANI = {
 _UNDECIDED = [
     'scratch sizing is decided for multiplication / squaring (mul_ops.rs mul_large, square_large down to the kernels) and '
     'for division (div_ops.rs div_rem_in_lhs down to divide_conquer.rs) and for the gcd kernel lehmer::gcd_in_place; the '
-    'gcd_ext / modular / pow / root / div_const / gcd_ops callers of memory_requirement_* still see an opaque Memory.  GENUINE DEFECT found there by hand while writing '
-    'the gcd contract (proposed_fixes/MEM1): gcd/lehmer.rs memory_requirement_up_to sizes only the first Euclidean division',
+    'gcd_ext / modular / pow / root / div_const / gcd_ops ext callers of memory_requirement_* still see an opaque Memory.  Two GENUINE DEFECTS were found there while '
+    'writing the gcd contracts: MEM1 (UBig::gcd, repaired in 1d55bba) and MEM2 (modular inverse, proposed_fixes/MEM2)',
     'div_rem_in_place_small_quotient and div_rem_unshifted_in_place are verified up to their last use of `memory` only '
     '(rule D20u: the value-dependent tails do not mention `memory`; they are proved in int_div_dc / int_div_ops)',
     'the capacity-tracking model lib/mem_model.rs is trusted (raw-pointer code of memory.rs; backed by the Kani group '
@@ -88,10 +94,11 @@ PROP_UNITS = {
             'undecided': _UNDECIDED},
     # division: the resource clause of "a = q b + r ... for operands of every size class" / panic freedom of `/`, `%`
     'C02': {'verus': ['int_memsize_div', 'int_memsize_div_ops'], 'kani': ['int_memsize_model'], 'undecided': _UNDECIDED},
-    'C12': {'verus': ['int_memsize_gcd'],
-            'undecided': ['scratch sizing of UBig::gcd (gcd_ops.rs gcd_large -> gcd::memory_requirement_exact): VIOLATED on the '
-                          'unchanged tree (proposed_fixes/MEM1: a later Euclidean step needs more than the first division '
-                          'reserved; b = 2^8448 - 1, a = 2^63 b + 2^4224 - 1 panics); unit int_memsize_gcd_ops is ready for '
-                          'the repaired code; gcd_ext / modular inverse sizing not modelled']},
+    'C12': {'verus': ['int_memsize_gcd', 'int_memsize_gcd_ops', 'int_memsize_gcd_ext'],
+            'undecided': ['scratch sizing of the EXTENDED gcd by its callers (lehmer::memory_requirement_ext_up_to, used by gcd_ops.rs '
+                          'gcd_ext_large and modular/div.rs inv_large): the kernel needs ext_need(|lhs|) (int_memsize_gcd_ext) but the '
+                          'function reserves gneed(FLOOR(lhs_len / 2)) for the products: VIOLATED on the tree (proposed_fixes/MEM2; '
+                          'ConstDivisor::new(2^3072 + 12345 * 2^1536 + 3).reduce(2^1536 + 12345).inv() panics); unit '
+                          'int_memsize_gcd_ext_ops (not registered) verifies the sizing functions on a tree with that repair']},
     'C16': {'kani': ['int_memsize_model'], 'undecided': _UNDECIDED},
 }
